@@ -46,7 +46,7 @@ func init() {
 
 	Engines["C03"] = chainEngine("C03", &sim.ChainCfg{Admit: true, PoolOrder: true, Conserve: true},
 		func(tier string) *sim.GenParams {
-			return &sim.GenParams{Mix: sim.OpMix{"tx": 6, "kvtx": 6, "respend": 5, "mine": 5, "deliver": 5, "walk": 3, "reopen": 1, "bg": 1, "clock": 1}, MaxSteps: steps(tier, 24, 40), MaxNodes: 3, Windows: []int{0}, MapOrders: true, SmallCache: true, Defer: true}
+			return &sim.GenParams{Mix: sim.OpMix{"tx": 6, "kvtx": 6, "respend": 5, "mine": 5, "deliver": 5, "walk": 3, "reopen": 1, "bg": 1, "clock": 1, "badblock": 2}, MaxSteps: steps(tier, 24, 40), MaxNodes: 3, Windows: []int{0}, MapOrders: true, SmallCache: true, Defer: true}
 		}, "", func(st *sim.RunStats) bool { return st.Probes["tx-refused"] > 0 && st.Probes["tx-admitted"] > 1 })
 
 	Engines["C04"] = chainEngine("C04", &sim.ChainCfg{LedgerM: true},
@@ -61,9 +61,9 @@ func init() {
 			return st.Probes["failed-op-checked"] > 0 && st.Probes["reopen-compared"] > 3
 		})
 
-	Engines["C09"] = chainEngine("C09", &sim.ChainCfg{Model: true, Conserve: true},
+	Engines["C09"] = chainEngine("C09", &sim.ChainCfg{Model: true, Conserve: true, Diff: true, DiffEveryN: 4},
 		func(tier string) *sim.GenParams {
-			return &sim.GenParams{Mix: sim.OpMix{"invoke": 12, "tx": 4, "kvtx": 2, "mine": 4, "deliver": 2, "walk": 1}, MaxSteps: steps(tier, 20, 36), MaxNodes: 2, Windows: []int{0}, MapOrders: true, SmallCache: true, NoTinyUtxo: true}
+			return &sim.GenParams{Mix: sim.OpMix{"invoke": 12, "tx": 4, "kvtx": 2, "mine": 4, "deliver": 2, "walk": 1, "badblock": 2}, MaxSteps: steps(tier, 20, 36), MaxNodes: 2, Windows: []int{0}, MapOrders: true, SmallCache: true, NoTinyUtxo: true}
 		}, "", func(st *sim.RunStats) bool {
 			return st.Probes["commit-effect-checked"] > 0 && st.Probes["invoke-admitted"] > 1
 		})
